@@ -356,6 +356,8 @@ fn archive_err(err: ArchiveError, path: &Path) -> RunFailed {
                 Deleting and starting again.",
                 path.display(), err,
             );
+            #[cfg(feature = "verif-hooks")]
+            crate::verif::kill_point("rrdp.archive_err.before_remove");
             match fs::remove_file(path) {
                 Ok(()) => {
                     RunFailed::retry()
